@@ -112,3 +112,51 @@ Proof.
   intros W Hr Hc. unfold field_defs. cbn [exp_field f_attrs f_name f_ty]. rewrite Hr, Hc. rewrite (print_embed _ W).
   eexists. split; [reflexivity|]. repeat split.
 Qed.
+
+(* ---------- the names of the generated aliases are injective in (struct, field): D18 / D22 cannot come back ---------- *)
+From Coq Require Import DecimalString DecimalNat.
+Definition is_digit (c: ascii) : bool := let n := nat_of_ascii c in (Nat.leb 48 n && Nat.leb n 57)%bool.
+Fixpoint all_digits (s: string) : bool := match s with EmptyString => true | String c r => is_digit c && all_digits r end.
+Definition starts_nondigit (s: string) : Prop := match s with EmptyString => False | String c _ => is_digit c = false end.
+Lemma all_digits_uint d : all_digits (NilEmpty.string_of_uint d) = true.
+Proof. induction d; cbn; try reflexivity; exact IHd. Qed.
+Lemma digit_prefix_unique : forall d1 d2 a b, all_digits d1 = true -> all_digits d2 = true -> starts_nondigit a -> starts_nondigit b ->
+  (d1 ++ a)%string = (d2 ++ b)%string -> d1 = d2 /\ a = b.
+Proof.
+  induction d1 as [|c d1 IH]; intros [|c' d2] a b H1 H2 Ha Hb E; cbn in *.
+  - split; [reflexivity|exact E].
+  - exfalso. subst a. cbn in Ha. apply andb_true_iff in H2. destruct H2 as [H2 _]. congruence.
+  - exfalso. subst b. cbn in Hb. apply andb_true_iff in H1. destruct H1 as [H1 _]. congruence.
+  - injection E as -> E. apply andb_true_iff in H1. apply andb_true_iff in H2. destruct (IH d2 a b (proj2 H1) (proj2 H2) Ha Hb E) as [-> ->]. split; reflexivity.
+Qed.
+Lemma dec_inj n m : dec n = dec m -> n = m.
+Proof.
+  unfold dec. intros H. assert (E: Nat.to_uint n = Nat.to_uint m).
+  { pose proof (NilEmpty.usu (Nat.to_uint n)) as A. pose proof (NilEmpty.usu (Nat.to_uint m)) as B. rewrite H in A. rewrite A in B. injection B as B. exact B. }
+  rewrite <- (Unsigned.of_to n), <- (Unsigned.of_to m), E. reflexivity.
+Qed.
+Lemma append_same_length : forall a b x y, String.length a = String.length b -> (a ++ x)%string = (b ++ y)%string -> a = b /\ x = y.
+Proof.
+  induction a as [|c a IH]; intros [|c' b] x y L E; cbn in *; try discriminate.
+  - split; [reflexivity|exact E].
+  - injection E as -> E. injection L as L. destruct (IH b x y L E) as [-> ->]. split; reflexivity.
+Qed.
+Lemma append_assoc (a b c: string) : ((a ++ b) ++ c)%string = (a ++ (b ++ c))%string.
+Proof. induction a as [|x a IH]; cbn; [reflexivity|rewrite IH; reflexivity]. Qed.
+(* a struct's name is an identifier: it does not start with a digit *)
+Theorem alias_names_injective s1 i1 s2 i2 : starts_nondigit (strip_raw s1) -> starts_nondigit (strip_raw s2) ->
+  (fst (alias_names s1 i1) = fst (alias_names s2 i2) \/ snd (alias_names s1 i1) = snd (alias_names s2 i2)) -> strip_raw s1 = strip_raw s2 /\ i1 = i2.
+Proof.
+  intros N1 N2 H. unfold alias_names, alias_owner in H. cbn [fst snd] in H.
+  assert (K: forall suf, ("__" ++ (dec (String.length (strip_raw s1)) ++ strip_raw s1) ++ i1 ++ suf)%string = ("__" ++ (dec (String.length (strip_raw s2)) ++ strip_raw s2) ++ i2 ++ suf)%string ->
+             strip_raw s1 = strip_raw s2 /\ i1 = i2).
+  { intros suf E. cbn in E. injection E as E. rewrite !append_assoc in E.
+    assert (Nd: forall s i, starts_nondigit s -> starts_nondigit (s ++ i ++ suf)%string) by (intros [|c s] i Hs; [contradiction|exact Hs]).
+    destruct (digit_prefix_unique _ _ _ _ (all_digits_uint _) (all_digits_uint _) (Nd _ i1 N1) (Nd _ i2 N2) E) as [Ed Er].
+    apply dec_inj in Ed. destruct (append_same_length _ _ _ _ Ed Er) as [Ea Ei]. split; [exact Ea|]. apply (append_cancel_r _ _ _ Ei). }
+  destruct H as [H|H]; [apply (K "StructDiffVec")|apply (K "StructDiffRefVec")]; exact H.
+Qed.
+(* before the repair the struct's name and the field's name were glued together without the length: `A` + `bc` met `Ab` + `c` *)
+Example alias_names_old_clash : ("__" ++ "A" ++ "bc" ++ "StructDiffVec")%string = ("__" ++ "Ab" ++ "c" ++ "StructDiffVec")%string /\
+  fst (alias_names "A" "bc") = "__1AbcStructDiffVec" /\ fst (alias_names "Ab" "c") = "__2AbcStructDiffVec".
+Proof. repeat split. Qed.
